@@ -9,6 +9,7 @@ var Registry = map[string]func(tier, replay string) int{
 	"C08": RunC08,
 	"C09": RunC09,
 	"C10": RunC10,
+	"C11": RunC11,
 	"C05": RunC05,
 	"C12": RunC12,
 	"C13": RunC13,
